@@ -102,7 +102,23 @@ func solveWith(cfg *SolverCfg, smt string, wantModel bool, canary bool) solverRe
 		first = 1500
 	}
 	r := runSolver("z3-new", []string{fmt.Sprintf("-T:%d", (first+999)/1000), fmt.Sprintf("-t:%d", first)}, file, first)
-	if r.status == "unsat" || r.status == "sat" || canary {
+	if r.status == "unsat" || r.status == "sat" {
+		solveCache.Store(key, r)
+		return r
+	}
+	if canary {
+		// a canary is vacuous if ANY solver refutes the assumptions: ask the other two briefly
+		ch := make(chan solverResult, 2)
+		go func() { ch <- runSolver("z3", []string{"-T:2", "-t:1500"}, file, 1500) }()
+		cfile := filepath.Join(cfg.Dir, key+".cvc5.smt2")
+		os.WriteFile(cfile, []byte(smt), 0o644)
+		go func() { ch <- runSolver("cvc5", []string{"--tlimit=1500", "--strings-exp"}, cfile, 1500) }()
+		for i := 0; i < 2; i++ {
+			if x := <-ch; x.status == "unsat" {
+				r = x
+			}
+		}
+		os.Remove(cfile)
 		solveCache.Store(key, r)
 		return r
 	}
